@@ -2,7 +2,8 @@
 Theorems: coq/Properties_C04_calc.v (Calc model: all expressions, all scripts, all stop positions).
 Tie: K2 (generated expressions x scripts with the external stop at a random position / before start;
 leaves log the instant they see stop; the root receiver's token counts live callback registrations)."""
-import k2, k2v2
+import re
+import k2, k2v2, vlib
 LEVEL = "proof"
 def run(chk, replay=None):
     chk.cov["trusted_base"] = [
@@ -13,5 +14,47 @@ def run(chk, replay=None):
         "modelled not verified: races between a stop request and a child's completion are the E1 models' job (C01 RefElect, C03, C19)"]
     chk.cov["rule"] = "K2: generated expressions x scripts; non-trivial = script contains a stop or starts pre-stopped, or a non-value outcome"
     chk.prove()
+    fault_probe(chk)
     k2.standard_k2(chk)
     k2v2.standard_k2v2(chk)   # second-generation model Calc2 (lifetimes, contexts, more algorithms): tie (theorems: Properties_*_calc2.v)
+
+
+EXPECT = {"sor_prestopped_then_throw": "d"}    # every other probe: a registration threw with nothing stopped -> set_error
+
+def fault_probe(chk):
+    """harness/k3_c04_probe.cpp: stop-callback hygiene on fault paths (throwing callback registration in stop_on_request):
+    the clause 'deregistered before the receiver is completed' evaluated directly on the real code."""
+    exe, err = vlib.build_driver("k3_c04_probe", "plain17")
+    if err:
+        p = chk.replay_file("c04probe_build", {"kind": "build-failure", "error": err[-3000:]})
+        chk.violation("c04probe/build", p, no_input=True, text="k3_c04_probe does not compile against /repo")
+        return
+    rc, out = vlib.sh([exe], timeout=120)
+    n = 0
+    found = False
+    for l in out.splitlines():
+        m = re.match(r"(\S+) completion=(.) live_rcv=(-?\d+) live_ext=(-?\d+) after=(-?\d+)", l)
+        if not m:
+            continue
+        n += 1
+        name, comp, lr, le, af = m.group(1), m.group(2), int(m.group(3)), int(m.group(4)), int(m.group(5))
+        chk.count("c04probe:" + name, True)
+        why = None
+        if comp != EXPECT.get(name, "e"):
+            why = "completed with %s, documented %s" % (comp, EXPECT.get(name, "e"))
+        elif lr != 0:
+            why = "%d stop callback(s) still registered on the receiver's token when the receiver was completed" % lr
+        elif le != 0:
+            why = "%d external stop callback(s) still alive when the receiver was completed" % le
+        elif af != 0:
+            why = "%d registration(s) left on the receiver's source after completion" % af
+        if why:
+            p = chk.replay_file("c04probe_" + name, {"kind": "fault-probe", "probe": name, "line": l, "why": why, "replay": exe + " | grep " + name})
+            chk.violation("c04probe/%s" % name, p, text="%s: %s" % (name, why))
+            found = True
+        else:
+            chk.cov["traces_validated_against_impl"] += 1
+    if (rc != 0 or "END" not in out or n < 7) and not found:   # the program stops at the first probe that leaves a registration behind
+        p = chk.replay_file("c04probe_run", {"kind": "probe-crash", "rc": rc, "out": out[-2000:], "replay": exe})
+        chk.violation("c04probe/crash", p, text="fault probe program failed rc=%d after %d probes" % (rc, n))
+    chk.cov["fault_probes"] = n
